@@ -151,6 +151,7 @@ fn fatal_handler(f: Fatal, rep: &SchedReport) {
         Fatal::Deadlock => (vec!["C04"], "deadlock"),
         Fatal::StepBound => (vec!["C04"], "step-bound"),
         Fatal::UnexpectedWaker => (vec![], "harness-unexpected-waker"),
+        Fatal::LostHandoff => (vec!["C04"], "lost-wakeup"),
     };
     let v = Violation { props: props.iter().map(|s| s.to_string()).collect(), class: class.into(), msg: format!("{:?}: worker states {:?} after {} scheduling steps{}", f, rep.thread_states, rep.stats.steps, if REPUSH_OF_POPPED.load(Ordering::SeqCst) > 0 { D5_TAG } else { "" }) };
     if let Some(h) = FATAL_HOOK.lock().unwrap().as_ref() { h(&v, rep); }
